@@ -12,5 +12,8 @@ TStep == /\ l <= Len(Events(h))
             /\ val' = e.val
          /\ l' = l + 1 /\ h' = h
 TNext == TStep
-Mark == MarkAccepted(h, l)
+ASSUME \A x \in 1..NHist : TLCSet(NHist + x, 0)
+Mark == MarkAccepted(h, l) /\ TLCSet(NHist + h, l)
+Post == /\ (Rejected = {} \/ PrintT(<<"PROGRESS", {<<x, TLCGet(NHist + x)>> : x \in Rejected}>>))
+        /\ AllAccepted
 ====
